@@ -196,6 +196,48 @@ fn state_of(_vm: &Vm) -> String {
     " [nohooks]".into()
 }
 
+/// like state_session, but every datum is evaluated by slices of `budget` instructions
+/// (prepare_eval + run_count): the registers after a failure inside a later slice are visible here
+pub fn sliced_state_session(forms: &[String], budget: u64) -> String {
+    let (mut vm, _log) = new_vm();
+    let mut x = budget;
+    let mut out = String::from("STATE");
+    for f in forms {
+        out.push_str(" |");
+        let mut text: &str = f;
+        loop {
+            let (cell, rest) = match marwood::parse::parse_text(text) {
+                Ok(v) => v,
+                Err(e) => {
+                    out.push(' ');
+                    out.push_str(&show_error(&Error::from(e)));
+                    break;
+                }
+            };
+            match eval_sliced(&mut vm, &cell, 0, &mut x) {
+                Ok(c) => {
+                    out.push_str(" OK ");
+                    out.push_str(&esc(&format!("{:#}", c)));
+                }
+                Err(Error::InvalidSyntax(ref m)) if m == "TOO MANY SLICES" => {
+                    out.push_str(" NOFUEL");
+                    break;
+                }
+                Err(e) => {
+                    out.push(' ');
+                    out.push_str(&show_error(&e));
+                }
+            }
+            out.push_str(&state_of(&vm));
+            match rest {
+                Some(r) => text = r,
+                None => break,
+            }
+        }
+    }
+    out
+}
+
 pub fn state_session(forms: &[String]) -> String {
     let (mut vm, _log) = new_vm();
     let mut out = String::from("STATE");
@@ -340,6 +382,10 @@ pub fn run(c: &[String]) -> String {
         },
         75 => match take_texts(&c[1..]) {
             Some(forms) => hw_session(&forms),
+            None => "BADCASE".into(),
+        },
+        77 => match take_texts(&c[2..]) {
+            Some(forms) => sliced_state_session(&forms, c[1].parse().unwrap()),
             None => "BADCASE".into(),
         },
         76 => match take_texts(&c[2..]) {
